@@ -23,6 +23,8 @@ class Scen(CompScenario):
         self.top.add("dut", self.dut)
         self.caller("write", self.dut.write)
         self.caller("read", self.dut.read)
+        if c.get("twin"):
+            self.twin("read", self.dut.read)  # two consumers sharing one read method
         if self.basic:
             self.caller("peek", self.dut.peek)
             self.caller("clear", self.dut.clear)
@@ -62,10 +64,11 @@ class Scen(CompScenario):
             name = f"write.i.{f}"
             w = self.widths[name]
             stim[name] = (self.tag if k == 0 else rng.getrandbits(w)) & ((1 << w) - 1)
-        return stim
+        return self.twin_stim(rng, stim)
 
     # ---- oracle -----------------------------------------------------------------------------
     def check(self, cyc, stim, obs):
+        stim, obs = self.fold_twins(stim, obs)
         depth = self.cfg["depth"]
         q = self.q
         level = len(q)
@@ -166,7 +169,7 @@ class Prop(PropBase):
             layout.append(["aux", rng.choice([1, 3, 8])])
         cycles = rng.randint(80, 400 if big else 220)
         kinds = ["random", "fill", "drain", "pingpong", "idle"] + (["flush", "flush"] if cls == "BasicFifo" else [])
-        return {"cls": cls, "depth": depth, "layout": layout, "cycles": cycles, "peek2": int(cls == "BasicFifo" and rng.random() < 0.4),
+        return {"cls": cls, "depth": depth, "layout": layout, "cycles": cycles, "peek2": int(cls == "BasicFifo" and rng.random() < 0.4), "twin": int(rng.random() < 0.3),
                 "sched": rng.choice(["eager", "eager", "rr"]), "plan": make_plan(rng, cycles, kinds)}
 
     def make(self, cfg):
@@ -176,7 +179,7 @@ class Prop(PropBase):
         return {"cls": cfg["cls"], "port": (viol.get("info") or {}).get("port")}
 
     def cfg_signature(self, cfg):
-        return [cfg["cls"], cfg["depth"], cfg["layout"], cfg["sched"], cfg.get("peek2", 0)]
+        return [cfg["cls"], cfg["depth"], cfg["layout"], cfg["sched"], cfg.get("peek2", 0), cfg.get("twin", 0)]
 
     def shrink_cfg(self, cfg):
         if cfg["depth"] > 1:
